@@ -582,6 +582,10 @@ CTX_PROBES = [
 
 CTX_PREFIX += ["export const g9 = () => { return 1 };\n", "const h9 = (p) => { const k = p; return k };\n",
                "g(() => { foo = 1 });\n"]
+# JSX nested in an attribute value (an expression container that is not a child), with a bound identifier inside
+CTX_PREFIX += ["const other8 = <Card icon={<Icon>{a}</Icon>}>static</Card>;\n", "const other9 = <Field prefix={<b>{val}</b>} />;\n",
+               "function r6(label) { return <Field prefix={<b>{label}</b>}>text</Field> }\n",
+               "const other10 = <Card icon={cond ? <Icon>{a}</Icon> : null} {...{ x: <U>{b}</U> }} />;\n"]
 
 
 def gen_ctx_cases(seed, n, start_id=0):
@@ -707,8 +711,10 @@ def gen_matrix_cases(start_id=0):
             add("<%s title=\"t\" v-models={%s} onFoo={fn} />" % (host, value), k); k += 1
     # v-slots beside a sole identifier / call child, and without any child
     for host in ["Comp", "NS.Item", "Unknown", "div"]:
-        for vs in ["slots", "{ a: () => 1 }", "{ ...slots }", "{ a: fn, b: () => [a] }"]:
-            for ch in ["{foo}", "{fn()}", "", "{}", "{/* c */}", " \n ", "{a}{b}", "t"]:
+        for vs in ["slots", "{ a: () => 1 }", "{ ...slots }", "{ a: fn, b: () => [a] }", "{ default: fn, header: a }",
+                   "{ 'default': fn }", "{ a: fn, a: b, ['default']: fn }"]:
+            for ch in ["{foo}", "{fn()}", "", "{}", "{/* c */}", " \n ", "{a}{b}", "t", "{() => 1}", "{{ header: b }}",
+                       "{{ a: fn, default: b }}", "<b/>"]:
                 add("<%s v-slots={%s}>%s</%s>" % (host, vs, ch, host), k); k += 1
         add("<%s v-slots={{ a: () => 1 }} />" % host, k); k += 1
     # directive names, arguments and modifiers outside ASCII
@@ -783,11 +789,20 @@ ATOM_TYPES = ["string", "number", "boolean", "object", "bigint", "symbol", "null
               "Extract<string | string[], string | object>", "Extract<Date | number, object>", "Extract<number | Map<string, number>, object | number>",
               "Exclude<string | string[], number>", "NonNullable<string[] | null>", "null | NonNullable<string | undefined>",
               "(Date | null) | NonNullable<number | null>",
+              # Boolean / String order matters to Vue's boolean casting: null / undefined in every position
+              "NonNullable<null | boolean | string>", "NonNullable<undefined | string | boolean | number>", "NonNullable<BSN0>",
+              "NonNullable<boolean | null | string | Date>", "boolean | string", "string | boolean",
+              "(null | boolean) | NonNullable<null | string | Date>", "NonNullable<null | 'a' | true | 1>",
               "I0['a']", "J1['a']", "J1['b']", "J1['zz']", "I0[number]", "J1['a' | 'b']",
               # indexed accesses the resolver cannot see through: nested, on a `typeof`, on an array's property
               "Obj1['k']['size']", "Obj1['k']['n']['length']", "(typeof SIZES)[number]", "string[]['length']",
               # indexed accesses that select a method signature (a function value)
               "Obj0['m']", "Obj0['m' | 'j']", "I2m['onSave']", "I2m['onSave' | 'label']"]
+# declaration order of Boolean and String (Vue casts `""` / the hyphenated key to true only when Boolean comes first)
+ATOM_ORDER = {"NonNullable<null | boolean | string>": "Boolean<String", "NonNullable<undefined | string | boolean | number>": "String<Boolean",
+              "NonNullable<BSN0>": "Boolean<String", "NonNullable<boolean | null | string | Date>": "Boolean<String",
+              "boolean | string": "Boolean<String", "string | boolean": "String<Boolean",
+              "(null | boolean) | NonNullable<null | string | Date>": "Boolean<String", "NonNullable<null | 'a' | true | 1>": "String<Boolean"}
 OBJ = {"object", "array", "date", "map", "set", "weakmap", "promise", "regexp", "error"}
 # JavaScript value kinds a type can have; "ANY" = anything; None = outside the property's grammar
 ATOM_KINDS = {
@@ -814,6 +829,11 @@ ATOM_KINDS = {
     "Extract<string | string[], string | object>": {"string", "array"}, "Extract<Date | number, object>": {"date"},
     "Extract<number | Map<string, number>, object | number>": {"number", "map"},
     "Exclude<string | string[], number>": {"string", "array"}, "NonNullable<string[] | null>": {"array"},
+    "NonNullable<null | boolean | string>": {"boolean", "string"}, "NonNullable<undefined | string | boolean | number>": {"string", "boolean", "number"},
+    "NonNullable<BSN0>": {"boolean", "string", "number"}, "NonNullable<boolean | null | string | Date>": {"boolean", "string", "date"},
+    "boolean | string": {"boolean", "string"}, "string | boolean": {"string", "boolean"},
+    "(null | boolean) | NonNullable<null | string | Date>": {"null", "boolean", "string", "date"},
+    "NonNullable<null | 'a' | true | 1>": {"string", "boolean", "number"},
     "null | NonNullable<string | undefined>": {"null", "string"}, "(Date | null) | NonNullable<number | null>": {"date", "null", "number"},
 }
 
@@ -831,7 +851,7 @@ def kinds_union(a, b):
 TYPE_PRELUDE = ("class Foo {}\nfunction fn(a: number, b: string) {}\ntype T0 = string | number;\ninterface I0 { a: 1; (): void }\ninterface J1 extends I0 { b: 2 }\n"
                 "type Arr0 = boolean[];\ntype Tup0 = [string, number];\ntype Obj0 = { k: Date; j: number; m(): void; [x: string]: any };\n"
                 "type Obj1 = { k: { size: 'sm' | 'lg'; n: number[] } };\nconst SIZES = ['sm', 'md'] as const;\n"
-                "interface I2m { onSave(payload: string): void; onCancel(): void; label: string }\n")
+                "interface I2m { onSave(payload: string): void; onCancel(): void; label: string }\ntype BSN0 = null | boolean | string | number;\n")
 PROP_KEYS = ["foo", "bar", "'baz-q'", "qux", "msg", "'onUpdate:x'", "count", "1", "'label'", "'size'"]
 
 
@@ -1301,6 +1321,8 @@ def gen_atom_cases(start_id=0):
             tags.add("inherited_index")
         if a in ("Obj1['k']['size']", "Obj1['k']['n']['length']", "(typeof SIZES)[number]", "string[]['length']"):
             tags.add("unres_index")
+        if a in ATOM_ORDER:
+            tags.add("order:" + ATOM_ORDER[a])
         k = ATOM_KINDS.get(a)
         ku = kinds_union(k, {"regexp"})
         M = [("p", False, a, "prop", k, sorted(tags)), ("q", True, "(%s) | RegExp" % a, "prop", ku, sorted(tags | {"union"}))]
@@ -1340,9 +1362,53 @@ def gen_default_cases(start_id=0):
     return out
 
 
+SCOPE_WRAPPERS = [
+    ("top", "%s"), ("fn-decl", "function scope1() {\n%s\n}"), ("arrow-const", "export const make = () => {\n%s\n};"),
+    ("fn-expr", "const make = function () {\n%s\n};"), ("callback-arg", "describe(() => {\n%s\n});"),
+    ("fn-expr-arg", "describe(function () {\n%s\n});"), ("obj-method", "const o = { make() {\n%s\n} };"),
+    ("obj-arrow-prop", "const o = { make: () => {\n%s\n} };"), ("class-method", "class K { make() {\n%s\n} }"),
+    ("class-expr-method", "const K = class { make() {\n%s\n} };"), ("block", "{\n%s\n}"), ("if-block", "if (foo.bar) {\n%s\n}"),
+    ("nested", "function outer() { const inner = () => {\n%s\n}; return inner }"), ("iife", "(() => {\n%s\n})();"),
+    ("for-body", "for (const i of [1]) {\n%s\n}"), ("try", "try {\n%s\n} catch (e) {}"),
+    ("arrow-in-call-in-arrow", "const f = () => describe(() => {\n%s\n});"), ("default-param", "function g(cb = () => {\n%s\n}) {}"),
+]
+
+
+def gen_position_cases(start_id=0):
+    """every syntactic position a declaration can stand in (C16: `at every declaration position and scope depth`;
+    C19 likewise) x declared before / after the call / shadowing an outer declaration / events: deterministic"""
+    out = []
+    pm = [["msg", True, ["string"], "prop", "string", []], ["n", False, ["number"], "prop", "number", []]]
+    bodies = [
+        ("before", "interface P { msg: string; n?: number }\nconst Comp = defineComponent((props: P) => () => null);", "", pm, [], "none"),
+        ("after", "const Comp = defineComponent((props: P) => () => null);\ntype P = { msg: string } & Q;\ninterface Q { n?: number }", "", pm, [], "none"),
+        ("shadow", "type P = { msg: string; n?: number };\nconst Comp = defineComponent((props: P) => () => null);",
+         "interface P { decoy: number }", pm, [], "none"),
+        ("events", "interface Em { (e: 'update:open', v: boolean): void; (e: 'before-close'): void }\n"
+                   "const Comp = defineComponent((props: { a: 1 }, ctx: SetupContext<Em>) => () => null);", "type Em = { decoy: [] };",
+         [["a", True, ["number"], "prop", "1", []]], ["update:open", "before-close"], "ctx"),
+    ]
+    for wname, w in SCOPE_WRAPPERS:
+        for bname, body, outer, props, emits, second in bodies:
+            if wname == "top" and outer:
+                outer = ""
+                if bname == "shadow":
+                    continue
+            src = "\n".join(["import { defineComponent, SetupContext } from 'vue';",
+                             "let Comp2; const base = {}; const props = {}; const dflt = {}; const dyn = 'k'; function makeOpts() { return {} } const foo = { bar: 1 };",
+                             "function describe(f: any) {}", TYPE_PRELUDE, outer, w % body]) + "\n"
+            truth = {"props": props, "emits": emits, "augmentable": True, "prov": "named", "first": "typed", "second": second,
+                     "setup": "arrow", "optarg": None, "spreadargs": False, "declkind": 0,
+                     "defaults": {"form": "none", "per_key": {}}, "getter_in_partial": False}
+            out.append({"id": start_id + len(out), "src": src, "syntax": "tsx", "options": '{"resolveType": true}', "stream": "types",
+                        "feat": ["position-sweep", "pos:" + wname, "posbody:" + bname], "truth": truth})
+    return out
+
+
 def gen_types_cases(seed, n, start_id=0):
     out = gen_atom_cases(start_id)
     out += gen_default_cases(start_id + len(out))
+    out += gen_position_cases(start_id + len(out))
     start_id += len(out)
     for i in range(n):
         g = TGen(Rng(seed * 7368787 + i))
